@@ -221,3 +221,18 @@ Lemma assemble_args_defer ev l addr t args c a1 :
 Proof.
   destruct t; open_args; intros H; defer_loop; cbv beta iota in *; try discriminate H; nd_close.
 Qed.
+
+(* ------------------------------------------------------------------ templates that evaluate no operand *)
+(* CPSIE / CPSID / DMB / DSB / ISB read their operand as a bare identifier ("i", "SY"): nothing is looked up, nothing can defer *)
+Definition no_eval (t : instr) : bool := match t with Cps _ | Dmb | Dsb | Isb => true | _ => false end.
+
+Lemma no_eval_indep ev1 ev2 l1 l2 addr t st : no_eval t = true ->
+  assemble_args ev1 l1 addr t st = assemble_args ev2 l2 addr t st.
+Proof. destruct t; try discriminate; reflexivity. Qed.
+
+Lemma no_eval_nodefer ev l addr t args c a1 : no_eval t = true -> assemble_args ev l addr t (mkAst args 0) <> CDefer c a1.
+Proof.
+  intros HN H. rewrite (no_eval_indep ev (fun a => (a, SComplete)) l l addr t _ HN) in H.
+  apply assemble_args_defer in H. destruct H as (x & a' & s & _ & Ex & N1 & _). inversion Ex; subst. congruence.
+Qed.
+
